@@ -12,10 +12,10 @@ package sym
 
 import (
 	"fmt"
-	"math/big"
-	"os"
 	"go/token"
 	"go/types"
+	"math/big"
+	"os"
 	"strings"
 
 	"golang.org/x/tools/go/ssa"
@@ -228,7 +228,10 @@ func (d *deepCmp) eq(a, b Val, path string) *Term {
 		switch a.(type) {
 		case *Agg, *Ptr:
 		default:
-			if f, err := os.OpenFile("/tmp/samestate.log", os.O_APPEND|os.O_CREATE|os.O_WRONLY, 0644); err == nil { fmt.Fprintf(f, "vSameState: %s : %T %T const-false=%v\n", path, a, b, r.IsFalse()); f.Close() }
+			if f, err := os.OpenFile("/tmp/samestate.log", os.O_APPEND|os.O_CREATE|os.O_WRONLY, 0644); err == nil {
+				fmt.Fprintf(f, "vSameState: %s : %T %T const-false=%v\n", path, a, b, r.IsFalse())
+				f.Close()
+			}
 		}
 	}
 	return r
